@@ -65,7 +65,7 @@ func (s *socket) RecvMsg() (*protocol.Message, error) {
 	tq := nilQ
 	for {
 		s.Lock()
-		if s.recvExpire > 0 {
+		if tq == nil && s.recvExpire > 0 {
 			tq = time.After(s.recvExpire)
 		}
 		cq := s.closeQ
